@@ -11,7 +11,9 @@ import sys
 from concurrent.futures import ThreadPoolExecutor
 
 VERIF = os.path.dirname(os.path.dirname(os.path.abspath(__file__)))
-OUTSIDE = {"C11-6": "outside the quantifier (see DESIGN 7.6)", "C14-11": "outside the statement: a worker starting during a pause (see DESIGN 7.6)"}
+OUTSIDE = {"C11-6": "outside the quantifier (see DESIGN 7.6)", "C14-11": "outside the statement: a worker starting during a pause (see DESIGN 7.6)",
+           "C12-12": "outside the statement: duplicate insert is fatal in the unchanged code (see DESIGN 7.6)",
+           "C03-12": "thorough tier only (VERIF_N_C03_LONG_IDLE=1)"}
 
 
 def run(name):
